@@ -221,9 +221,11 @@ func Seed(w Sys, s int) {
 	case 4:
 		// a file with two links plus an unrelated file
 		must(w.Link("/w/a/a", "/w/b"))
-		c, c2 = w.OpenWrite("/w/c", 1|0x40|0x200, 0o600, []byte("zzz"))
+		// (written longer, then shrunk: growing it again must expose zeros, not the old bytes)
+		c, c2 = w.OpenWrite("/w/c", 1|0x40|0x200, 0o600, []byte("zzzzz"))
 		must(c)
 		must(c2)
+		must(w.Truncate("/w/c", 3))
 	}
 }
 
